@@ -58,6 +58,8 @@ Definition vec_eq (a b : vec) : Prop := Forall2 Qeq a b.
 Definition mat_eq (A B : mat) : Prop := Forall2 vec_eq A B.
 
 Definition wf_mat (n : nat) (M : mat) : Prop := Forall (fun r => length r = n) M.
+Definition wf_matb (n : nat) (M : mat) : bool :=
+  forallb (fun r => Nat.eqb (length r) n) M && Nat.eqb (length M) n.
 
 (* ------------------------------------------------------------------ certified linear solve *)
 
@@ -264,20 +266,23 @@ Definition scale_row (cf : vec) (rf : Q) (row : vec) : vec :=
 Definition scale_J (rf cf : vec) (J : mat) : mat :=
   map (fun rr => scale_row cf (snd rr) (fst rr)) (combine J rf).
 
+(* the assembled system must be square of the model's size (checked, not assumed) *)
 Definition totals (rev ds : bool) (s : spec) (dvs rs : list voi) : option mat :=
   let offs := offsets s in
   let n := total_size s in
   let M := sys_mat s in
   let dpos := all_pos offs dvs in
   let rpos := all_pos offs rs in
-  match inverse M with
-  | Some N =>
-      match (if rev then jac_rev N M n dpos rpos else jac_fwd N M n dpos rpos) with
-      | Some J => Some (scale_J (all_factors ds rs) (all_factors ds dvs) J)
-      | None => None
-      end
-  | None => None
-  end.
+  if wf_matb n M then
+    match inverse M with
+    | Some N =>
+        match (if rev then jac_rev N M n dpos rpos else jac_fwd N M n dpos rpos) with
+        | Some J => Some (scale_J (all_factors ds rs) (all_factors ds dvs) J)
+        | None => None
+        end
+    | None => None
+    end
+  else None.
 
 (* return formats: 'dict' / 'flat_dict' are views J[jac_slice(of), jac_slice(wrt)] of the array *)
 Fixpoint slices_from (o : nat) (szs : list nat) : list (nat * nat) :=
@@ -304,14 +309,26 @@ Definition run_totals (s : spec) (dvs rs : list voi) : val :=
   let M := sys_mat s in
   let dpos := all_pos offs dvs in
   let rpos := all_pos offs rs in
-  match inverse M with
+  if wf_matb n M then
+    match inverse M with
+    | Some N =>
+        let jf := jac_fwd N M n dpos rpos in
+        let jr := jac_rev N M n dpos rpos in
+        let sc (ds : bool) (j : option mat) :=
+          match j with Some J => Some (scale_J (all_factors ds rs) (all_factors ds dvs) J) | None => None end in
+        VL [v_omat (sc false jf); v_omat (sc false jr); v_omat (sc true jf); v_omat (sc true jr);
+            v_ovec (solve_with N M (sys_rhs s))]
+    | None => VN
+    end
+  else VN.
+
+(* [run_totals] is [totals] in the four (mode, scaling) combinations plus the converged state *)
+Definition run_totals_spec (s : spec) (dvs rs : list voi) : val :=
+  match (if wf_matb (total_size s) (sys_mat s) then inverse (sys_mat s) else None) with
   | Some N =>
-      let jf := jac_fwd N M n dpos rpos in
-      let jr := jac_rev N M n dpos rpos in
-      let sc (ds : bool) (j : option mat) :=
-        match j with Some J => Some (scale_J (all_factors ds rs) (all_factors ds dvs) J) | None => None end in
-      VL [v_omat (sc false jf); v_omat (sc false jr); v_omat (sc true jf); v_omat (sc true jr);
-          v_ovec (solve_with N M (sys_rhs s))]
+      VL [v_omat (totals false false s dvs rs); v_omat (totals true false s dvs rs);
+          v_omat (totals false true s dvs rs); v_omat (totals true true s dvs rs);
+          v_ovec (solve_with N (sys_mat s) (sys_rhs s))]
   | None => VN
   end.
 
